@@ -127,11 +127,15 @@ def out_of_package(pl):
     return pl in ("sub", "sub_per_iface", "shared", "shared_in_root")
 
 
-def gen_config(rng, tree, nested=False):
+def gen_config(rng, tree, nested=False, formatter=None):
+    """formatter None = default (goimports, which re-sorts imports); "noop"/"gofmt" show the
+    template's own output; matryer is then replaced by testify because its unformatted output has
+    an unused import (DESIGN.md section 6 row 14, C01) and would not load on the rerun."""
     tpl = {}
     root = cfg(force=True, data={"mock-build-tags": "!c6skip"})
+    root["formatter"] = formatter
     pkgs = []
-    hist = {"placement": {}, "template": {}, "configs_entries": 0, "listed_interfaces": 0, "shape23": False}
+    hist = {"placement": {}, "template": {}, "configs_entries": 0, "listed_interfaces": 0, "shape23": False, "formatter": formatter or "goimports"}
     big = {"k%02d" % i: (i if i % 3 == 0 else ("v%d" % i if i % 3 == 1 else (i % 2 == 0))) for i in range(13)}
     shape23 = rng.random() < 0.5
     hist["shape23"] = shape23
@@ -147,6 +151,8 @@ def gen_config(rng, tree, nested=False):
         else:
             pl = rng.choice(sorted(PLACEMENTS))
             tm = rng.choice(["testify", "testify", "matryer", "custom"])
+        if formatter in ("noop", "gofmt") and tm == "matryer":
+            tm = "testify"
         hist["placement"][pl] = hist["placement"].get(pl, 0) + 1
         hist["template"][tm] = hist["template"].get(tm, 0) + 1
         c = cfg(**PLACEMENTS[pl])
@@ -247,10 +253,10 @@ def yaml_of_cfg(c, extra=None):
     return o
 
 
-def yaml_cfg(case, formatter=None):
+def yaml_cfg(case):
     top = yaml_of_cfg(case["root"])
-    if formatter:
-        top["formatter"] = formatter
+    if case["root"].get("formatter"):
+        top["formatter"] = case["root"]["formatter"]
     pk = {}
     for p in case["pkgs"]:
         ent = {"config": yaml_of_cfg(p["cfg"])}
@@ -482,7 +488,7 @@ def check(ctx, only=None):
     fl_mode = C12.calibrate(ctx)
     builtins, outside = C12.load_builtins(ctx)
     k = 40 if ctx.thorough() else 6
-    ncfg = 8 if ctx.thorough() else 4
+    ncfg = 12 if ctx.thorough() else 6
     nested = os.environ.get("C06_NESTED_RECURSIVE") == "1"
     hists = []
     if only is not None:
@@ -492,7 +498,7 @@ def check(ctx, only=None):
         cases = [corpus_variant_b(tree0)]
         for j in range(ncfg):
             tree = gen_tree(ctx.rng)
-            c, h = gen_config(ctx.rng, tree, nested=nested and j % 2 == 1)
+            c, h = gen_config(ctx.rng, tree, nested=nested and j % 2 == 1, formatter=[None, "noop", "gofmt", None][j % 4])
             cases.append(c)
             hists.append(h)
     ks = [max(k, 10) if (only is None and j == 0) else k for j in range(len(cases))]
